@@ -111,6 +111,7 @@ def mutants(ids):
     repo = os.environ.get("VERIF_REPO", "/repo")
     missed = 0
     total = 0
+    marginal = []
     for pid in ids:
         for patch in sorted(glob.glob(os.path.join(VERIF, "mutants", pid, "*.patch")) +
                             glob.glob(os.path.join(VERIF, "seeded", "*", "patch.diff"))):
@@ -138,16 +139,29 @@ def mutants(ids):
                 env["VERIF_REPO"] = scratch
                 env["VERIF_EVIDENCE_DIR"] = os.path.join(scratch, "evidence")
                 t0 = time.time()
-                p = subprocess.run([os.path.join(VERIF, "run"), pid, "--tier", "quick"], capture_output=True,
-                                   text=True, env=env, timeout=1800)
+                # the configured seed first; a change that only some seeds' quick tier catches is reported as such
+                # (MARGINAL) so that the workload can be biased towards it
+                tried = []
+                for seed in (os.environ.get("VERIF_SEED", "0"), "1", "2"):
+                    if seed in tried:
+                        continue
+                    tried.append(seed)
+                    env["VERIF_SEED"] = seed
+                    p = subprocess.run([os.path.join(VERIF, "run"), pid, "--tier", "quick"], capture_output=True,
+                                       text=True, env=env, timeout=1800)
+                    if p.returncode != 0:
+                        break
                 kinds = [l.strip() for l in p.stdout.splitlines() if l.strip().startswith("kind=")]
                 name = os.path.basename(os.path.dirname(patch)) if "seeded" in patch else os.path.basename(patch)
                 if p.returncode == 1:
-                    print("%s %-40s CAUGHT in %.0fs %s" % (pid, name, time.time() - t0, kinds[0][:100] if kinds else ""))
+                    print("%s %-40s CAUGHT%s in %.0fs %s" % (pid, name, "" if len(tried) == 1 else " (MARGINAL: seed %s only)" % tried[-1],
+                                                             time.time() - t0, kinds[0][:100] if kinds else ""))
+                    if len(tried) > 1:
+                        marginal.append("%s %s" % (pid, name))
                 else:
                     print("%s %-40s MISSED (rc=%d)" % (pid, name, p.returncode))
                     missed += 1
             finally:
                 shutil.rmtree(scratch, ignore_errors=True)
-    print("mutants: %d total, %d missed" % (total, missed))
+    print("mutants: %d total, %d missed, %d marginal%s" % (total, missed, len(marginal), (": " + ", ".join(marginal)) if marginal else ""))
     return 0 if not missed else 1
